@@ -68,6 +68,8 @@ ExactClauses(r) ==
             \o Cl("matrix-of-the-stated-quadratic-form", r.Hq = WantQ(r.scheme, P, n, pr))
             \o Cl("ridge-on-the-diagonal-only", r.Hr = WantR(r.scheme, n))
             \o Cl("cholesky-factorization-exists", StrictScheme(r.scheme) => r.chol)
+            \* the scheme object's coefficient attributes (value and type) are the same after the calls as before
+            \o Cl("scheme-coefficients-unchanged-by-the-calls", r.attrs_ok)
             \o (IF n <= MaxTernary
                 THEN Cl("positive-semi-definite-on-ternary-vectors",
                         \A x \in Ternary(n) :
@@ -227,6 +229,8 @@ Sig(r) == r.api \o ":" \o r.scheme \o ":" \o r.mesh
           \* history of the linear object the matrix was read from: "fresh", or the object carried ANOTHER scheme whose block was
           \* evaluated before the judged scheme was assigned to a copy.copy of it ("copy") or to the object itself ("reassign")
           \o (IF r.history # "fresh" THEN ":after-" \o r.history ELSE "")
+          \* type in which the coefficient was given to the scheme (Python float unless stated)
+          \o (IF r.ctype # "float" THEN ":coefficient-" \o r.ctype ELSE "")
           \* inversion-level history before the judged read (Regularization!HistRead): after-solve, preloaded, ...
           \o (IF r.api = "blocks" /\ r.stage # "fresh" THEN ":" \o r.stage ELSE "")
 
